@@ -52,7 +52,7 @@ Proof.
   intros (H1 & H2 & H3 & H3b & H4 & H5) Hne Hres.
   unfold file_result, spec_file. cbn [f_given f_lang f_raw s_rel s_lang s_raw g_parts].
   rewrite (true_rel_ok _ _ _ _ Hres), (name_of_app _ _ Hne).
-  unfold orch_ignored, rule_ignored, fp_path. rewrite H1, H2, H3, H3b, H4, H5. cbn [andb].
+  unfold rule_ignored, orch_ignored, fp_path. rewrite H1, H2, H3, H3b, H4, H5. cbn [andb].
   destruct (hard_excluded rel (name_of rel)); [reflexivity|].
   destruct (repo_ignored (e_root_pats e) (unrooted rel) rel); [reflexivity|].
   rewrite andb_false_r. destruct (cs_ikind sg); reflexivity.
@@ -222,7 +222,7 @@ Proof.
   { unfold orch_ignored. destruct (q_ignore_no_reroot q); [rewrite HV|]; reflexivity. }
   rewrite HO. destruct (repo_ignored (e_root_pats e) (unrooted rel) rel) eqn:ER; [reflexivity|].
   assert (HR : cs_cwd_parser sg && rule_ignored q e (GP true (lead ++ rel)) rel = false).
-  { unfold rule_ignored. destruct (q_rule_parser_cwd q); [|rewrite ER; apply andb_false_r].
+  { unfold rule_ignored. destruct (q_rule_parser_cwd q && ignore_parser_default_root_is_cwd); [|rewrite HO; apply andb_false_r].
     destruct Hcwd as [Hc|[Hc|Hc]].
     - rewrite Hc. reflexivity.
     - rewrite Hc, HV. cbn [fst snd]. rewrite ER. apply andb_false_r.
@@ -316,7 +316,7 @@ Proof.
   { unfold orch_ignored. destruct (q_ignore_no_reroot q); reflexivity. }
   rewrite HO. destruct (repo_ignored (e_root_pats e) (unrooted rel) rel) eqn:ER; [reflexivity|].
   assert (HR : cs_cwd_parser sg && rule_ignored q e (GP false rel) rel = false).
-  { unfold rule_ignored. destruct (q_rule_parser_cwd q); [|rewrite ER; apply andb_false_r].
+  { unfold rule_ignored. destruct (q_rule_parser_cwd q && ignore_parser_default_root_is_cwd); [|rewrite HO; apply andb_false_r].
     destruct Hcwd as [Hc|[Hc|Hc]].
     - rewrite Hc. reflexivity.
     - rewrite Hc. cbn [parser_view g_abs fst snd pstr all_parts g_parts app]. rewrite ER. apply andb_false_r.
